@@ -21,7 +21,10 @@ const PARALLEL_THRESHOLD_NUM_QUBITS: usize = 10;
 use crate::verif_hooks::PARALLEL_THRESHOLD as PARALLEL_THRESHOLD_NUM_QUBITS;
 
 /// Threshold for using OpenCL (GPU acceleration)
+#[cfg(not(feature = "verif-hooks"))]
 const OPENCL_THRESHOLD_NUM_QUBITS: usize = 15;
+#[cfg(feature = "verif-hooks")]
+use crate::verif_hooks::OPENCL_THRESHOLD as OPENCL_THRESHOLD_NUM_QUBITS;
 
 #[cfg(feature = "gpu")]
 fn execute_on_gpu(
